@@ -25,7 +25,10 @@ Step ==
             ELSE /\ PrintT(<<"MISMATCH", ev.ep, ev.seq, ev.op, "unknown-logic">>)
                  /\ skip' = TRUE /\ UNCHANGED <<st, nseq>>
        ELSE IF skip THEN UNCHANGED <<skip, st, nseq>>
-       ELSE LET x == IF ev.seq # nseq THEN [why |-> "event-lost", st |-> st] ELSE Eff(ev, st)
+       ELSE LET x == IF ev.seq # nseq THEN [why |-> "event-lost", st |-> st]
+                     \* the process died or hung in this call (script fields only): admissible nowhere
+                     ELSE IF ev.out \notin {"ret", "panic", "na"} THEN [why |-> "outcome", st |-> st]
+                     ELSE Eff(ev, st)
             IN  IF x.why = "ok"
                 THEN st' = x.st /\ skip' = FALSE /\ nseq' = nseq + 1
                 ELSE /\ PrintT(<<"MISMATCH", ev.ep, ev.seq, ev.op, x.why>>)
